@@ -26,11 +26,12 @@ def _rng(c: Any, lo: int, hi: int) -> Any:
 class B64Char(SymInt):
     """a byte produced by _to_b64(v), 0 <= v < 64: remembers v, so that
     decoding it again does not have to invert the alphabet if-chain"""
-    __slots__ = ('src',)
+    __slots__ = ('src', 'grp')
 
     def __init__(self, t: Any, src: Any) -> None:
         SymInt.__init__(self, t)
         self.src = src
+        self.grp = None      # (the list of 1-3 source bytes this character encodes, position 0..3): set by b64encode_items
 
 
 def _is_b64(c: Any) -> Any:
@@ -272,6 +273,25 @@ def utf16be_decode(items: list) -> list:
     return out
 
 
+def _tag_group(chars: list, chunk: list) -> list:
+    for k, ch in enumerate(chars):
+        if isinstance(ch, B64Char):
+            ch.grp = (chunk, k)
+    return chars
+
+
+def _same_group(chars: list) -> Any:
+    """the source bytes if `chars` are exactly the characters one b64encode_items group produced, in order"""
+    g0 = getattr(chars[0], 'grp', None)
+    if g0 is None or g0[1] != 0:
+        return None
+    for k, ch in enumerate(chars):
+        g = getattr(ch, 'grp', None)
+        if g is None or g[0] is not g0[0] or g[1] != k:
+            return None
+    return g0[0]
+
+
 def b64encode_items(items: list) -> list:
     out: list = []
     n = len(items)
@@ -279,15 +299,15 @@ def b64encode_items(items: list) -> list:
         chunk = items[i:i + 3]
         if len(chunk) == 3:
             v = chunk[0] * 65536 + chunk[1] * 256 + chunk[2]
-            out += [_to_b64(_div(v, 262144)), _to_b64(_mod(_div(v, 4096), 64)),
-                    _to_b64(_mod(_div(v, 64), 64)), _to_b64(_mod(v, 64))]
+            out += _tag_group([_to_b64(_div(v, 262144)), _to_b64(_mod(_div(v, 4096), 64)),
+                               _to_b64(_mod(_div(v, 64), 64)), _to_b64(_mod(v, 64))], chunk)
         elif len(chunk) == 2:
             v = chunk[0] * 256 + chunk[1]
-            out += [_to_b64(_div(v, 1024)), _to_b64(_mod(_div(v, 16), 64)),
-                    _to_b64(_mod(v, 16) * 4), 61]
+            out += _tag_group([_to_b64(_div(v, 1024)), _to_b64(_mod(_div(v, 16), 64)),
+                               _to_b64(_mod(v, 16) * 4)], chunk) + [61]
         else:
             v = chunk[0]
-            out += [_to_b64(_div(v, 4)), _to_b64(_mod(v, 4) * 16), 61, 61]
+            out += _tag_group([_to_b64(_div(v, 4)), _to_b64(_mod(v, 4) * 16)], chunk) + [61, 61]
     return out
 
 
@@ -311,6 +331,10 @@ def b64decode_items(items: list) -> list:
     out: list = []
     for i in range(0, len(vals), 4):
         ch = vals[i:i + 4]
+        src = _same_group(body[i:i + 4])
+        if src is not None and len(src) == {4: 3, 3: 2, 2: 1}.get(len(ch)):
+            out += list(src)       # decoding exactly what b64encode_items produced from these bytes
+            continue
         if len(ch) == 4:
             v = ch[0] * 262144 + ch[1] * 4096 + ch[2] * 64 + ch[3]
             out += [_div(v, 65536), _mod(_div(v, 256), 256), _mod(v, 256)]
